@@ -16,7 +16,8 @@
 (*         size; in union mode the callback was offered the union against  *)
 (*         every other live set, once                                      *)
 (*   Done   indices, ncalls                                                *)
-(*      -> one cluster left; the reported leaf order; in union mode the    *)
+(*      -> one cluster left; the reported leaf order is a permutation of   *)
+(*         the inputs; in union mode the                                    *)
 (*         callback was called once initially and once per merge           *)
 (* A panic of the crate is recorded as an event no action matches.         *)
 (***************************************************************************)
@@ -81,7 +82,7 @@ TMerge ==
 TDone ==
   /\ IsEvent("Done") /\ st = "run"
   /\ Done
-  /\ Indices(merges, 1) = Ev.indices
+  /\ Len(Ev.indices) = N /\ {Ev.indices[i] : i \in 1..Len(Ev.indices)} = 0..(N - 1)      \* a permutation of the inputs (the crate's choice: Indices(merges, 1))
   /\ (Mode = "union") => Ev.ncalls \in {N - 1, N}     \* initial call + one per merge; the call after the last merge offers nothing and is optional
   /\ SizesAddUp /\ TreeShape /\ EachClusterOnce /\ Monotone
   /\ st' = "idle"
